@@ -244,6 +244,13 @@ impl<'a, T> ChordsV2<'a, T> {
 
     fn drain_inputs(&mut self, drainq: &mut SmolQueue, active_layer: u16) {
         if self.ticks_to_ignore_chord > 0 {
+            // Releases must still reach the active chords. Otherwise a chord whose last
+            // participant is released during the cool-down is never released.
+            for qd in self.queue.iter() {
+                if let Event::Release(_, j) = qd.event {
+                    release_key_in_active_chords(&mut self.active_chords, j);
+                }
+            }
             drainq.extend(self.queue.drain(0..));
             return;
         }
@@ -291,18 +298,7 @@ impl<'a, T> ChordsV2<'a, T> {
             }
             Event::Release(_, j) => {
                 // Release the key from active chords.
-                achs.iter_mut().for_each(|ach| {
-                    if !ach.participating_keys.contains(&j) {
-                        return;
-                    }
-                    ach.remaining_keys_to_release.retain(|pk| *pk != j);
-                    if ach.remaining_keys_to_release.is_empty() {
-                        ach.status = match ach.status {
-                            Unread | UnreadReleased => UnreadReleased,
-                            Releasable | Released => Released,
-                        }
-                    }
-                });
+                release_key_in_active_chords(achs, j);
                 if presses.is_empty() {
                     drainq.push_back(*qd);
                     false
@@ -536,6 +532,21 @@ impl<'a, T> ChordsV2<'a, T> {
             }
         });
     }
+}
+
+fn release_key_in_active_chords<T>(achs: &mut HVec<ActiveChord<T>, 10>, j: u16) {
+    achs.iter_mut().for_each(|ach| {
+        if !ach.participating_keys.contains(&j) {
+            return;
+        }
+        ach.remaining_keys_to_release.retain(|pk| *pk != j);
+        if ach.remaining_keys_to_release.is_empty() {
+            ach.status = match ach.status {
+                Unread | UnreadReleased => UnreadReleased,
+                Releasable | Released => Released,
+            }
+        }
+    });
 }
 
 fn get_active_chord<'a, T>(
